@@ -18,6 +18,9 @@ CHECKS = {
     'C10': dict(tech='TLA+ dual-number derivative of each named pose operation along every tangent direction of the named operand, evaluated by TLC; compared with the 12 public Jacobian methods chained with the exact boxplus Jacobian (binding A)',
                 text='For each of the 12 methods x 4 pose kinds the specification differentiates the named operation exactly (forward mode over rationals) w.r.t. the boxplus perturbation of the named operand; the code Jacobian (documented shape asserted) chained with the exact boxplus Jacobian must equal it, the *_compact variants must be the leading rows of the full ones, and results must not alias shared state.',
                 ref='4 C10', note=L1 + ' The component of a 7-column Jacobian normal to the unit sphere is not constrained by the property and not compared.'),
+    'C18': dict(tech='GraphSLAM!Construct (bind by id, typing rules of Kinds.tla) explored exhaustively by TLC over the full cross product; every reached state replayed as Graph([edge], vertices) (binding A)',
+                text='The system specification states construction as: bind every edge position to the vertex with that id, accept iff all ids are known and the edge is well typed. TLC enumerates the complete cross product the property quantifies over (20 736 configurations quick, 97 920 thorough), checks on the model that the verdict is independent of list order and that accepted edges are bound by id, and each state is replayed against the real constructor: it must raise exactly when the specification rejects, and bind exactly as the specification binds.',
+                ref='4 C18', note='Validation is an assert in the library: python -O is outside the property. Edges naming the same vertex twice are not generated. Custom edge classes are represented by their own is_valid verdict.'),
 }
 NA_REASON = 'check not built yet in this round (planned, see DESIGN.md section 4)'
 
